@@ -42,3 +42,52 @@ def held_phase(rep, impl_exe, rng, kinds, n=12):
                      "call": hjobs[okpos[k2]], "at_encode_time": a, "after_later_calls": b, "jobs_file": jf,
                      "replay": "%s < %s | tail -1" % (impl_exe, jf)}]
     return []
+
+
+def qr_adversarial_phase(rep, impl_exe, rng, tier, run_fresh_each):
+    """For every version x level and every ordered pair of modes: a content that fills the version exactly
+    in the first mode followed by a content with the SAME payload bit count in the second mode (a result
+    cached under too coarse a key would be replayed), all in one process; every result is compared with
+    the same call alone in a fresh process."""
+    import c01
+
+    def pbits(m, n):
+        return 10 * (n // 3) + (0, 4, 7)[n % 3] if m == 1 else 11 * (n // 2) + 6 * (n % 2) if m == 2 else 8 * n
+    seq = []
+    for lvl in range(4):
+        for v in (range(1, 41) if tier == "thorough" else [1, 2, 5, 9, 10, 11, 17, 26, 27, 33, 40]):
+            for m1 in (1, 2, 3):
+                c1 = c01.capacity(m1, lvl, v)
+                P = pbits(m1, c1)
+                for m2 in (1, 2, 3):
+                    if m2 == m1:
+                        continue
+                    n2 = [n for n in range(max(0, P // 11 - 2), P // 3 + 3) if pbits(m2, n) == P]
+                    if n2:
+                        seq.append("enc qr %d %d %s" % (lvl, m1, J.hx(c01.content_for(m1, c1, rng))))
+                        seq.append("enc qr %d %d %s" % (lvl, rng.choice([m2, 0]) if m2 == 3 else m2, J.hx(c01.content_for(m2, n2[0], rng))))
+    sq_hist = run_lines(impl_exe, seq, shards=1)
+    sq_uniq = sorted(set(seq))
+    sq_fresh = dict(zip(sq_uniq, run_fresh_each(impl_exe, sq_uniq)))
+    rep.cov["qr_adversarial_pairs"] = len(seq) // 2
+    for i, l in enumerate(seq):
+        if sq_hist[i] != sq_fresh[l]:
+            jf = os.path.join(VERIF, "replays", "%s-qrpairs-%d.txt" % (rep.pid, rep.seed))
+            os.makedirs(os.path.dirname(jf), exist_ok=True)
+            open(jf, "w").write("\n".join(seq[:i + 1]) + "\n")
+            return [{"kind": "a call returned a different barcode after a history of calls than alone in a fresh process",
+                     "call": l[:300], "previous_call": (seq[i - 1] if i else "")[:300], "in_history": sq_hist[i], "fresh_process": sq_fresh[l],
+                     "history_file": jf, "replay": "%s < %s | tail -1   (compare with the last line of the file run alone)" % (impl_exe, jf)}]
+    return []
+
+
+def run_fresh_each(exe, lines, workers=NCPU):
+    """every line in its own, freshly started process"""
+    from concurrent.futures import ThreadPoolExecutor
+
+    def one(l):
+        p = subprocess.run([exe], input=(l + "\n").encode(), stdout=subprocess.PIPE, stderr=subprocess.PIPE, timeout=120)
+        o = p.stdout.decode("utf-8", "replace").split("\n")
+        return o[0] if o and o[0] else "CRASH(rc=%s)" % p.returncode
+    with ThreadPoolExecutor(workers) as ex:
+        return list(ex.map(one, lines))
